@@ -124,13 +124,13 @@ def handleChk : List String → String
     | _, _, _, _, _ => "bad-op"
   | ["msubstring", len, low, high] =>
     match len.toInt?, low.toInt?, optInt high with
-    | some len, some low, some high => showOpt (fun r => s!"{r.1}:{r.2}") (substring len low high)
+    | some len, some low, some high => showOpt toString (substring len low high)
     | _, _, _ => "bad-op"
   | ["ssubstring", len, low, high] =>
     match len.toInt?, low.toInt?, optInt high with
     | some len, some low, some high =>
       let h := high.getD len
-      okIf (GV.Spec.Checks.strSliceOk len low h) s!"{low}:{h}"
+      okIf (GV.Spec.Checks.strSliceOk len low h) (toString (h - low))
     | _, _, _ => "bad-op"
   | ["mmakeslice", n, m] => match n.toInt?, optInt m with
     | some n, some m => showOpt (fun r => s!"{r.1}:{r.2}") (makeSlice n m) | _, _ => "bad-op"
